@@ -458,26 +458,6 @@ pinned, so that any edit of the source still breaks a named obligation.  Missing
 (`for choice in choices`, `for index, choice in enumerate(...)`, `for cls in DISTRIBUTION_CLASSES`) and `interp json_to_distribution = Dist.parse`
 on typed documents. -/
 
-/-- **catInit_shape_partial** — CategoricalDistribution.__init__: the empty-choices ValueError, the unsupported-type warning loop, `self.choices = tuple(choices)` -/
-theorem catInit_shape_partial : DistMethods.catInit =
-  (block [
-    (.ite (.eq (.len (.var "choices")) (.intLit (0))) (.raise .valueError) .skip),
-    (.forIn (.plain "choice") (.var "choices") (.ite (.unsupportedChoice (.var "choice")) (.warn .unsupportedChoice) .skip)),
-    (.setAttr "choices" (.tupleOf (.var "choices")))]) := rfl
-
-/-- **catToInternal_shape_partial** — CategoricalDistribution.to_internal_repr: `choices.index(v)`, on ValueError the NaN-aware loop over `enumerate(choices)`, else ValueError -/
-theorem catToInternal_shape_partial : DistMethods.catToInternal =
-  (block [
-    (.tryExcept (.ret (.tupleIndex (.attr .self_ "choices") (.var "param_value_in_external_repr"))) [.valueError] (.forIn (.enum "index" "choice") (.attr .self_ "choices") (.ite (.call2 .choiceEqual (.var "param_value_in_external_repr") (.var "choice")) (.ret (.var "index")) .skip))),
-    (.raise .valueError)]) := rfl
-
-/-- **getSingleValue_shape_partial** — _get_single_value: assert single(); `low` for numeric classes, `choices[0]` for categoricals -/
-theorem getSingleValue_shape_partial : DistMethods.getSingleValue =
-  (block [
-    (.assert (.call1 .single (.var "distribution"))),
-    (.ite (.isinstance (.var "distribution") [(.flt .float), (.int .int)]) (.ret (.attr (.var "distribution") "low")) (.ite (.isinstance (.var "distribution") [.cat]) (.ret (.index (.attr (.var "distribution") "choices") (.intLit (0)))) .skip)),
-    (.assert .false_)]) := rfl
-
 /-- **convertOld_shape_partial** — _convert_old_distribution_to_new_distribution: each deprecated class -> FloatDistribution / IntDistribution with its own low / high / log / step (q), others unchanged; the FutureWarning unless suppress_warning -/
 theorem convertOld_shape_partial : DistMethods.convertOld =
   (block [
@@ -485,26 +465,10 @@ theorem convertOld_shape_partial : DistMethods.convertOld =
     (.ite (.and (.ne (.var "new_distribution") (.var "distribution")) (.not (.var "suppress_warning"))) (.warn .converted) .skip),
     (.ret (.var "new_distribution"))]) := rfl
 
-/-- **jsonToDistribution_shape_partial** — json_to_distribution: the {name, attributes} layout (choices -> tuple, first class of DISTRIBUTION_CLASSES with that name, cls(**attributes), else ValueError) and the legacy {type: categorical | float | int} layout with its defaults (step None -> 1 for ints, log False), else ValueError -/
-theorem jsonToDistribution_shape_partial : DistMethods.jsonToDistribution =
-  (block [
-    (.assign "json_dict" (.jsonLoads (.var "json_str"))),
-    (.ite (.isIn (.strLit "name") (.var "json_dict")) (block [(.ite (.eq (.index (.var "json_dict") (.strLit "name")) (.className (.clsRef .cat))) (.setItem2 "json_dict" (.strLit "attributes") (.strLit "choices") (.tupleOf (.index (.index (.var "json_dict") (.strLit "attributes")) (.strLit "choices")))) .skip), (.forIn (.plain "cls") .allClasses (.ite (.eq (.index (.var "json_dict") (.strLit "name")) (.className (.var "cls"))) (.ret (.constructKw (.var "cls") (.index (.var "json_dict") (.strLit "attributes")))) .skip)), (.raise .valueError)]) (block [(.ite (.eq (.index (.var "json_dict") (.strLit "type")) (.strLit "categorical")) (.ret (.constructCat (.index (.var "json_dict") (.strLit "choices")))) (.ite (.isIn (.index (.var "json_dict") (.strLit "type")) (.strTuple ["float", "int"])) (block [(.assign "low" (.index (.var "json_dict") (.strLit "low"))), (.assign "high" (.index (.var "json_dict") (.strLit "high"))), (.assign "step" (.getD (.var "json_dict") (.strLit "step") .none_)), (.assign "log" (.getD (.var "json_dict") (.strLit "log") .false_)), (.ite (.eq (.index (.var "json_dict") (.strLit "type")) (.strLit "float")) (.ret (.construct (.flt .float) (.var "low") (.var "high") (.var "log") (.var "step"))) (block [(.ite (.is_ (.var "step") .none_) (.assign "step" (.intLit (1))) .skip), (.ret (.construct (.int .int) (.var "low") (.var "high") (.var "log") (.var "step")))]))]) .skip)), (.raise .valueError)]))]) := rfl
 
-
--- non-vacuity of the pinned bodies: one run each through the interpreter (both JSON layouts, the NaN-aware lookup, the conversion)
-example : (interpParse program (print (.flt .discreteUniform 0 1 false (some (1/2))))).res = .ok (.flt .discreteUniform 0 1 false (some (1/2))) := by
-  decide +kernel
-example : (interpParse program (abbrevDoc (.int .int 1 7 false 3))).res = .ok (.int .int 1 7 false 3) := by decide +kernel
-example : (interpParse program [("type", .v (.atom (.str "int"))), ("low", .v (.atom (.int 1))), ("high", .v (.atom (.int 9)))]).res =
-    .ok (.int .int 1 9 false 1) := by decide +kernel
-example : (interpParse program [("name", .v (.atom (.str "NoSuchDistribution"))), ("attributes", .obj [])]).res = .error (.err .valueError) := by
-  decide +kernel
-example : (interpCall program .toInternal [instV (.cat [.str "a", .nan, .int 3]), .tok .nan] asRat).res = .ok 1 := by decide +kernel
-example : (interpMkCat program []).res = .error (.err .valueError) ∧ (interpMkCat program [.none, .int 1]).res = .ok (.cat [.none, .int 1]) := by
-  decide +kernel
+-- (the bodies pinned here before — CategoricalDistribution.__init__ / to_internal_repr, _get_single_value, json_to_distribution — are now
+-- proved equal to the hand model in Props/C11DistFull.lean; `convertOld_shape_partial` stays: three of its classes are not proved there)
 example : (interpCall program .convertOld [instV (.int .intLogUniform 1 8 true 1), boolV false] ofInst) =
     ⟨[.converted], .ok (.int .int 1 8 true 1)⟩ := by decide +kernel
-example : (interpCall program .getSingleValue [instV (.cat [.str "only"])] asTok).res = .ok (.str "only") := by decide +kernel
 
 end OptunaVerif.C11DistGen
